@@ -18,6 +18,7 @@ def check(repo, rep, tier):
     rep.run(re_.rule_comment_safe_writes, cm, rep, 'C19.B2')
     rep.run(re_.rule_flags_only_comments, cm, rep, 'C19.B3')
     rep.run(re_.rule_one_decoding, cm, rep, 'C19.B4', tier)
+    rep.run(re_.rule_codecs_strict, cm, rep, 'C19.B4s')
     rep.run(re_.rule_tracer_transparent, cm, rep, 'C19.B5')
     g, gp = cm.g, cm.gp
     lc = rep.run(rf.rule_raising_recognisers, em, rep, 'C19.B6a', g)
